@@ -136,6 +136,23 @@ type linkTo struct {
 	Done   chan error
 }
 
+type linkEvent struct {
+	Ev   gen.Event
+	Done chan error
+}
+
+type regEvent struct {
+	Name gen.Atom
+	Done chan gen.Ref
+}
+
+type sendEvent struct {
+	Name  gen.Atom
+	Token gen.Ref
+	Msg   any
+	Done  chan error
+}
+
 type watch struct {
 	Targets []any
 	Done    chan error
@@ -220,6 +237,20 @@ func victimHooks(trap bool) *actors.Hooks {
 				return then(m.Then)
 			case linkTo:
 				m.Done <- p.LinkPID(m.Target)
+			case linkEvent:
+				_, err := p.LinkEvent(m.Ev)
+				m.Done <- err
+			case error:
+				return m
+			case string:
+				if m == "panic" {
+					panic("c05 requested panic")
+				}
+			}
+			return nil
+		},
+		Event: func(p *actors.Probe, ev gen.MessageEvent) error {
+			switch m := ev.Message.(type) {
 			case error:
 				return m
 			case string:
@@ -299,6 +330,15 @@ func agentHooks() *actors.Hooks {
 				m.Done <- p.SendExitMeta(m.To, m.Reason)
 			case callReq:
 				p.CallWithTimeout(m.To, m.Msg, m.Timeout)
+			case regEvent:
+				tok, err := p.RegisterEvent(m.Name, gen.EventOptions{})
+				if err != nil {
+					close(m.Done)
+				} else {
+					m.Done <- tok
+				}
+			case sendEvent:
+				m.Done <- p.SendEvent(m.Name, m.Token, m.Msg)
 			case error:
 				return m
 			}
@@ -578,36 +618,77 @@ func watchdog() time.Duration {
 	return 20 * time.Second
 }
 
-// settle waits for the victim to be either terminated completely or alive and idle.
-// Returns ended. Sets r.incon on watchdog expiry (or a structural violation).
-func settle(v *victim, r *result) bool {
-	ok := hk.WaitUntil(watchdog(), func() bool {
-		if v.gone() {
-			return v.inst.TermCount.Load() >= 1 && !v.inst.InCallback() && hk.LiveRunners(v.subject()) == 0
-		}
-		return v.idle()
-	})
-	if ok {
-		return v.gone()
-	}
-	watchdogExpiries.Add(1)
-	quiet := hk.LiveRunners(v.subject()) == 0 && !v.inst.InCallback()
-	if v.gone() && quiet && v.inst.TermCount.Load() == 0 {
-		// unregistered, nothing of it is running, every issuing call has returned: the callback was skipped
-		r.fail("terminate-callback-missing", "%s (%s): process is unregistered, no runner goroutine is alive, yet the terminate callback never ran; causes %v", v.label, v.subject(), v.issues())
+// stuckViolations counts cases decided "violated" from a watchdog expiry plus a structural witness.
+// On a tree that is broken that way every further case would wait for its watchdog as well; after
+// breakerLimit such verdicts the remaining cases are skipped (the verdict cannot change any more).
+var stuckViolations atomic.Int64
+
+const breakerLimit = 10
+
+func breakerOpen() bool {
+	if stuckViolations.Load() >= breakerLimit {
+		hk.Stat("cases_skipped_after_repeated_stuck_termination", 1)
 		return true
 	}
-	if !v.gone() && quiet && v.kind != "meta" {
-		// every issuing call has returned and no goroutine of the process exists: nobody is left to finish the termination
-		if st, err := v.node.ProcessState(v.pid); err == nil && (st == gen.ProcessStateZombee || st == gen.ProcessStateTerminated) {
-			r.fail(fmt.Sprintf("stuck-in-state-%s-without-runner", st), "%s (%s): process is still registered in state %s, no runner goroutine is alive and every Kill has returned: its termination is never completed; causes %v", v.label, v.subject(), st, v.issues())
-			return false
+	return false
+}
+
+func settledNow(v *victim) bool {
+	if v.gone() {
+		return v.inst.TermCount.Load() >= 1 && !v.inst.InCallback() && hk.LiveRunners(v.subject()) == 0
+	}
+	return v.idle()
+}
+
+// settle waits for the victim to be either terminated completely or alive and idle.
+// Returns ended. Sets r.incon on watchdog expiry (or a structural violation).
+func settle(v *victim, r *result) bool { return settleAll([]*victim{v}, r)[0] }
+
+// settleAll: one watchdog for a group of victims
+func settleAll(vs []*victim, r *result) []bool {
+	ok := hk.WaitUntil(watchdog(), func() bool {
+		for _, v := range vs {
+			if !settledNow(v) {
+				return false
+			}
 		}
+		return true
+	})
+	if !ok {
+		watchdogExpiries.Add(1)
 	}
-	if r.incon == "" {
-		r.incon = "watchdog: victim neither terminated nor idle"
+	ended := make([]bool, len(vs))
+	stuck := false
+	for k, v := range vs {
+		if settledNow(v) {
+			ended[k] = v.gone()
+			continue
+		}
+		quiet := hk.LiveRunners(v.subject()) == 0 && !v.inst.InCallback()
+		if v.gone() && quiet && v.inst.TermCount.Load() == 0 {
+			// unregistered, nothing of it is running, every issuing call has returned: the callback was skipped
+			r.fail("terminate-callback-missing", "%s (%s): process is unregistered, no runner goroutine is alive, yet the terminate callback never ran; causes %v", v.label, v.subject(), v.issues())
+			ended[k] = true
+			stuck = true
+			continue
+		}
+		if !v.gone() && quiet && v.kind != "meta" {
+			// every issuing call has returned and no goroutine of the process exists: nobody is left to finish the termination
+			if st, err := v.node.ProcessState(v.pid); err == nil && (st == gen.ProcessStateZombee || st == gen.ProcessStateTerminated) {
+				r.fail(fmt.Sprintf("stuck-in-state-%s-without-runner", st), "%s (%s): process is still registered in state %s, no runner goroutine is alive and every Kill has returned: its termination is never completed; causes %v", v.label, v.subject(), st, v.issues())
+				stuck = true
+				continue
+			}
+		}
+		if r.incon == "" {
+			r.incon = "watchdog: victim neither terminated nor idle"
+		}
+		ended[k] = v.gone()
 	}
-	return v.gone()
+	if stuck {
+		stuckViolations.Add(1)
+	}
+	return ended
 }
 
 func observersIdle(n gen.Node, obs []*obsRec) bool {
